@@ -166,6 +166,29 @@ def gen_once(rng, two_bands=False, gaps=None, step=None, grid_step=None, n_event
     }
 
 
+def with_fine_logger(case, rng):
+    """The same record logged at half the rainfall step (mid-step readings on the straight line
+    between their neighbours, so nothing changes at the grid instants), with one to three readings
+    lost exactly where the level bends: at a grid instant that is a local peak.  The hole is no
+    longer than one rainfall step but contains a grid instant: a gap of the source record.
+    Returns (case, number of readings dropped)"""
+    step = case['step']
+    if step % 2:
+        return case, 0
+    zmap = {t: v for t, v in case['z']}
+    fine = []
+    for t, v in case['z']:
+        fine.append([t, v])
+        if t + step in zmap:
+            fine.append([t + step // 2, 0.5 * (v + zmap[t + step])])
+    peaks = [t for t in zmap if t - step in zmap and t + step in zmap and zmap[t] > zmap[t - step] and zmap[t] > zmap[t + step]]
+    if not peaks:
+        return case, 0
+    drop = set(rng.sample(peaks, min(len(peaks), rng.randint(1, 3))))
+    fine = [[t, v] for t, v in fine if t not in drop]
+    return dict(case, z=fine, fine_logger_dropped=sorted(drop)), len(drop)
+
+
 def r_inverse(truth, step):
     """Function level -> time (s) on the truth curve (piecewise linear)"""
     R = truth['R']
